@@ -24,8 +24,20 @@
                                 or the two internal conditions `fuel` / null counterfactual graph
     * `idstar_error_taxonomy_wf`, `idstar_nonempty_graph`
                                 for a well-formed event dict the null-graph condition is excluded too: estimand, Zero,
-                                'unidentifiable' or `fuel` (see OPEN `idstar_terminates`), nothing else
+                                'unidentifiable' or `fuel` (the latter excluded by `idstar_terminates`), nothing else
     * `idstar_fuel_mono`        more fuel never changes an answer that was reached
+    * `idstar_terminates`       TERMINATION: for every well-formed graph without self-loop edges and every well-formed event
+                                (`GoodEv`: a dict whose keys are variables of the graph with consistent subscript sets),
+                                `2·|V| + 3` units of fuel are never exhausted, for every iteration order of the worlds and of
+                                the district nodes; `idstar_never_out_of_fuel` (the model's own bound `2|V| + |event| + 4`),
+                                `idstar_outcomes`: on an acyclic graph the outcome is an estimand / Zero or `unidentifiable`,
+                                NOTHING else (no fuel clause).  Measure (Lemmas/CfTermA–C): every event line 6 recurses on is a
+                                "district event" (all keys in one world, key names closed under parents up to that world's
+                                names: `sw_of_district`); on a district event the non-self-intervened part of the
+                                counterfactual graph has at most one node per key name (`sw_structure`), so every further
+                                district event has strictly fewer keys (`district_smaller`); line 3 never adds keys and fires
+                                at most once per level.
+    * `idstar_depth_sw`         on a district event with k keys, `2k + 1` units suffice
     * vocabulary (C06 part): Props/C06Cf.lean
 
   -- OPEN (stated in full, NOT proved; on the current tree the first one is FALSE — F10, see known_findings.jsonl):
@@ -37,21 +49,12 @@
   --       probEvent M ν ev = 0
   --     proved for Zero coming from line 2 (`idstar_zero_line2_sound_partial`) and from line 5 (`idstar_zero_line5_sound`, by
   --     C18's `cg_prob`); Zero from a factor of line 6 is open (and false today: F10/M5)
-  --   theorem idstar_terminates : G acyclic → idStar ordf dordf G ev ≠ .error (.internal "fuel")
-  --     proved: the line-3 recursion (at most once, strictly smaller event); the line-6 recursion on the original graph
-  --     is only shown to be well defined for every fuel and monotone in the fuel; that `2|V| + |event| + 4` always
-  --     suffices is checked on every generated input by the correspondence (the model would answer `internal fuel`).
-  --     Proof plan (not mechanised): a line-6 event E_D has all keys in ONE world P (the pillow) and is parent-closed:
-  --     pa_G(bases D) ⊆ bases D ∪ names P, because every parent of a district node is in the district or in its pillow.  In the
-  --     recursive call the non-self-intervened nodes of the counterfactual graph are then single copies of variables in
-  --     bases D \ names P (a factual copy enters only by merging, which needs un-intervened ancestors), so a further split into
-  --     ≥ 2 districts yields events with strictly fewer keys: the measure |keys| decreases from the second level on.
-  --     Observed depth on 6 000 random inputs with ≤ 5 nodes: ≤ 3.
 -/
 import Y0.Model.IdStar
 import Y0.Lemmas.CfFscm
 import Y0.Lemmas.CfIdStar
 import Y0.Lemmas.CfNsi
+import Y0.Lemmas.CfTermC
 
 namespace Y0.Cf
 open Fscm
@@ -207,6 +210,51 @@ theorem idstar_zero_line5_sound (M : Model) (ν : BaseValues) (hν : ν.Distinct
     (h : makeCounterfactualGraph ordf G ev = .ok (g, none)) : probEvent M ν ev = 0 :=
   (cg_prob M ν hν G hM hG hdl hbl ordf ev hev hws hwne hwcs).2 g h
 
+/-! ## 3b. termination -/
+
+/-- **ID\* terminates** (the fuel of the model is never exhausted).  For every well-formed graph without self-loop edges, every
+well-formed event (`GoodEv G ev`: no repeated key, values named after their variables, every key `Variable(n)` or
+`CounterfactualVariable(n, S)` with `n` a node of `G` and `S` a consistent subscript set), every iteration order of the worlds
+(`PermOrder`) and of the district nodes (`SubsetOrder`): every fuel `≥ 2·|V| + 3` gives an outcome other than `internal fuel`. -/
+theorem idstar_terminates {ordf : List World → List World} (hord : PermOrder ordf) {dordf : List Var → List Var}
+    (hdo : SubsetOrder dordf) (hG : G.WF) (hdl : ∀ e ∈ G.di, e.1 ≠ e.2) (hbl : ∀ e ∈ G.bi, e.1 ≠ e.2)
+    (ev : Event) (hev : GoodEv G ev) :
+    ∃ n, n = 2 * G.nodes.length + 3 ∧ ∀ fuel, n ≤ fuel → idStarFuel ordf dordf G fuel ev ≠ .error (.internal "fuel") :=
+  ⟨_, rfl, fun fuel hf => idStarFuel_terminates hord hdo hG hdl hbl ev hev fuel hf⟩
+
+/-- … in particular the bound the model itself uses is enough -/
+theorem idstar_never_out_of_fuel {ordf : List World → List World} (hord : PermOrder ordf) {dordf : List Var → List Var}
+    (hdo : SubsetOrder dordf) (hG : G.WF) (hdl : ∀ e ∈ G.di, e.1 ≠ e.2) (hbl : ∀ e ∈ G.bi, e.1 ≠ e.2)
+    (ev : Event) (hev : GoodEv G ev) : idStar ordf dordf G ev ≠ .error (.internal "fuel") := by
+  unfold idStar idStarFuelBound
+  exact idStarFuel_terminates hord hdo hG hdl hbl ev hev _ (by omega)
+
+/-- on a district event (what line 6 recurses on) with at most `k` keys, `2k + 1` units of fuel suffice -/
+theorem idstar_depth_sw {ordf : List World → List World} (hord : PermOrder ordf) {dordf : List Var → List Var}
+    (hdo : SubsetOrder dordf) (hG : G.WF) (hdl : ∀ e ∈ G.di, e.1 ≠ e.2) (hbl : ∀ e ∈ G.bi, e.1 ≠ e.2)
+    (topo : List Name) (ht : G.topologicalSort = .ok topo) (k : Nat) (ev : Event) (hsw : SW G ev) (hk : ev.length ≤ k)
+    (fuel : Nat) (hf : 2 * k + 1 ≤ fuel) : idStarFuel ordf dordf G fuel ev ≠ .error (.internal "fuel") :=
+  idStarFuel_sw_terminates hord hdo hG hdl hbl topo ht k ev hsw hk fuel hf
+
+/-- **The outcomes of ID\***, without any fuel clause: on an acyclic well-formed graph and a well-formed event, ID* returns an
+expression (an estimand or Zero) or refuses with `unidentifiable` — nothing else. -/
+theorem idstar_outcomes {ordf : List World → List World} (hord : PermOrder ordf) {dordf : List Var → List Var}
+    (hdo : SubsetOrder dordf) (hG : G.WF) (hA : G.Acyclic) (hdl : ∀ e ∈ G.di, e.1 ≠ e.2) (hbl : ∀ e ∈ G.bi, e.1 ≠ e.2)
+    (ev : Event) (hev : GoodEv G ev) :
+    (∃ e, idStar ordf dordf G ev = .ok e) ∨ idStar ordf dordf G ev = .error .unidentifiable := by
+  obtain ⟨topo, ht⟩ := MG.topologicalSort_total G hG hA
+  cases h : idStar ordf dordf G ev with
+  | ok e => exact Or.inl ⟨e, rfl⟩
+  | error e =>
+    right
+    rcases idstar_error_taxonomy_wf G hord.good hdo topo ht ev hev.ok e h with he | he
+    · rw [he]
+    · exact absurd (he ▸ h) (idstar_never_out_of_fuel G hord hdo hG hdl hbl ev hev)
+
+/-- the hypotheses are satisfiable: the orders used by the correspondence check -/
+example (rev : Bool) (rot : Nat) : PermOrder (orderWorlds rev rot) := permOrder_orderWorlds rev rot
+example (rev : Bool) : SubsetOrder (orderDistrict rev) := subsetOrder_orderDistrict rev
+
 /-! ## 4. non-vacuity: concrete runs of the model (kernel-evaluated) -/
 
 namespace Example07
@@ -231,6 +279,14 @@ example : isUnid (idStar sortWorlds (sortBy Var.keyLt) gBA
 /-- the model reproduces the open finding F10/M1: for `B = b' ∧ A = a` it answers `P(B) · P[B](A)` with the UNSTARRED subscript
 (the harness shows on functional SCMs that this is not `P(B = b', A = a)`) -/
 example : okProd2 (idStar sortWorlds (sortBy Var.keyLt) gBA [(B, ⟨1, true⟩), (A, ⟨0, false⟩)]) [B] [A_b] = true := by decide
+/-- `GoodEv` is satisfiable: the event `A_b = a ∧ B = b` on `B → A` -/
+example : GoodEv gBA [(A_b, ⟨0, false⟩), (B, ⟨1, false⟩)] := by
+  refine ⟨⟨by decide, by decide⟩, ?_⟩
+  intro k hk
+  simp only [Event.keys, List.map_cons, List.map_nil, List.mem_cons, List.not_mem_nil, or_false] at hk
+  rcases hk with rfl | rfl
+  · exact ⟨rfl, rfl, by decide, by intro i hi j hj _; simp [A_b] at hi hj; rw [hi, hj]⟩
+  · exact ⟨rfl, rfl, by decide, by intro i hi; simp [B, Var.plain] at hi⟩
 end Example07
 
 end Y0.Cf
